@@ -128,6 +128,17 @@ def main():
     bproc = start_bounded(plan, repo, tier, seed)
     P = prove(plan, repo, tier)
     B = finish_bounded(bproc)
+    thorough_extra = {}
+    if tier == "thorough" and not os.environ.get("VF_EVIDENCE_DIR"):
+        # (a) the assumed library contracts this property rests on, exercised against the installed libraries (testing, not proof)
+        r = subprocess.run([sys.executable, "-m", "vf.libcheck", pid], cwd=VERIF, capture_output=True, text=True, env=dict(os.environ, PYTHONPATH=VERIF))
+        try: thorough_extra["library_contracts_exercised"] = json.loads(r.stdout.strip().splitlines()[-1])
+        except Exception: thorough_extra["library_contracts_exercised"] = {"error": (r.stderr or r.stdout)[-300:]}
+        # (b) self-test of the machinery: deliberately broken and deliberately harmless edits on scratch copies
+        if os.path.exists(os.path.join(VERIF, "mutants", f"{pid}.json")):
+            r = subprocess.run([sys.executable, "-m", "vf.mutants", pid, "--json"], cwd=VERIF, capture_output=True, text=True, env=dict(os.environ, PYTHONPATH=VERIF, VF_REPO=repo))
+            try: thorough_extra["self_test"] = json.loads(r.stdout.strip().splitlines()[-1])
+            except Exception: thorough_extra["self_test"] = {"error": (r.stderr or r.stdout)[-300:]}
     os.makedirs(os.path.join(VERIF, "evidence"), exist_ok=True); rdir = os.path.join(VERIF, "replays", pid); os.makedirs(rdir, exist_ok=True)
     lines, known_lines, notes = [], [], []
     obs = [o for o in P["obligations"] if o["kind"] != "canary"]; own = [o for o in obs if o["own"]]
@@ -195,6 +206,9 @@ def main():
                trusted_base=["vf VC generator (/verif/vf)", "z3", "cvc5", "CPython ast", "assumed library contracts (see assumptions)"],
                explanation=plan["explanation"], clauses=plan.get("clauses", {}), not_decided=plan.get("not_decided", []),
                known_findings=[l for l in known_lines])
+    cov.update(thorough_extra)
+    disagreements = [o["name"] for o in own if o["ok"] and o.get("second") == "sat"]
+    if disagreements: P["engine_errors"].append("solver disagreement (unsat vs sat) on " + ", ".join(disagreements[:3]))
     cov["undecided"] = [o["name"] for o in failed] + [f"{q}: {w}" for q, w in P["undecided"]] + [e.splitlines()[0] for e in P["engine_errors"]]
     samples = [f"{o['name']} [{o['kind']}] -> {o['status']} by {o['backend']} in {o['secs']}s" for o in own[:4]]
     if B and not B.get("crashed"):
